@@ -53,6 +53,7 @@ Record obs := mkObs {
   o_after_sd_spawn : list iid;
   o_stopstage : amap bool;          (* thread -> its stop execution has only passed stop_enter so far *)
   o_stopinst : amap (option iid);   (* thread -> instance whose status its stop execution is about to read *)
+  o_instop : amap iid;              (* thread -> instance it is executing stopProcess on (stop_enter .. stop_return) *)
   o_spawning : bool;                (* Run() is inside its spawn loop *)
   o_api_sd_first : bool;            (* a shutdown requested through the API began before any exit_on_* trigger *)
   (* the known check-then-act windows (known_findings.json); sticky *)
@@ -64,11 +65,11 @@ Record obs := mkObs {
   w_zombie : bool;   (* F38: a new instance of a name was created while the goroutine of an ended one still lives *)
   w_stale : bool }.  (* F32: a stop did nothing on an instance that is still waiting for its dependencies *)    (* instances registered by an explicit start request after the last completed shutdown *)
 #[export] Instance eta_obs : Settable _ :=
-  settable! mkObs <oi; onm; o_cnt; o_th; o_api; o_sd_done; o_sd_snap; o_sd_cur; o_triggers; o_run_ret; o_after_sd_spawn; o_stopstage; o_stopinst; o_spawning; o_api_sd_first; w_commit; w_late; w_sdspawn; w_dup; w_sdlag; w_zombie; w_stale>.
+  settable! mkObs <oi; onm; o_cnt; o_th; o_api; o_sd_done; o_sd_snap; o_sd_cur; o_triggers; o_run_ret; o_after_sd_spawn; o_stopstage; o_stopinst; o_instop; o_spawning; o_api_sd_first; w_commit; w_late; w_sdspawn; w_dup; w_sdlag; w_zombie; w_stale>.
 
 Definition obs0 (cs : amap pconf) : obs :=
   mkObs [] (map (fun p => (fst p, mkON (if deferred (snd p) then SDisabled else SPending) 0 false)) cs)
-        0 [] [] 0 [] [] [] None [] [] [] false false false false false false false false false.
+        0 [] [] 0 [] [] [] None [] [] [] [] false false false false false false false false false.
 
 Definition oi_get (o : obs) (i : iid) : oinst :=
   match get i (oi o) with Some x => x
@@ -151,8 +152,12 @@ Definition obs_step (cs : amap pconf) (o : obs) (te : tid * event) : obs :=
         oi_upd i (fun x => x <| o_endst := Some s0 |> <| o_commit := if own then false else o_commit x |>) o
     | EDepDone _ false, Some i => oi_upd i (fun x => x <| o_depfail := true |>) o
     | ENoRestart i, _ => oi_upd i (fun x => x <| o_stopreq := true |>) (o <| w_commit := w_commit o || o_commit (oi_get o i) |>)
-    | EStopEnter i _, _ => oi_upd i (fun x => x <| o_stopreq := true |>)
-                             (o <| w_dup := w_dup o || stopping o i |> <| o_stopstage := set th true (o_stopstage o) |> <| o_stopinst := set th (Some i) (o_stopinst o) |>)
+    | EStopEnter i cancel, _ =>
+        (* an internal stop (readiness probe failure, cancel = false) is not a stop request *)
+        oi_upd i (fun x => x <| o_stopreq := o_stopreq x || cancel |>)
+                             (o <| w_dup := w_dup o || stopping o i || existsb (fun p => N.eqb (snd p) i) (o_instop o) |>
+                                <| o_instop := set th i (o_instop o) |>
+                                <| w_commit := w_commit o || (cancel && o_commit (oi_get o i)) |> <| o_stopstage := set th true (o_stopstage o) |> <| o_stopinst := set th (Some i) (o_stopinst o) |>)
     | EStopRunning i, _ => o <| o_stopstage := set th false (o_stopstage o) |> <| o_stopinst := set th None (o_stopinst o) |>
     | EStopPending i, _ =>
         (o <| o_stopstage := set th false (o_stopstage o) |> <| o_stopinst := set th None (o_stopinst o) |> <| w_commit := w_commit o || o_commit (oi_get o i) |>)
@@ -160,7 +165,7 @@ Definition obs_step (cs : amap pconf) (o : obs) (te : tid * event) : obs :=
         let direct := match get th (o_stopstage o) with Some true => true | _ => false end in
         let x := oi_get o i in
         let unfinished := match o_endst x with None => true | Some _ => false end in
-        (o <| o_stopstage := del th (o_stopstage o) |> <| o_stopinst := set th None (o_stopinst o) |>
+        (o <| o_stopstage := del th (o_stopstage o) |> <| o_stopinst := set th None (o_stopinst o) |> <| o_instop := del th (o_instop o) |>
            <| w_commit := w_commit o || (direct && o_commit x) |>
            <| w_stale := w_stale o || (direct && unfinished && negb (o_commit x) && Nat.eqb (o_launches x) 0) |>)
     | ESignal i _ _, _ => oi_upd i (fun x => x <| o_sigs := S (o_sigs x) |>) o
